@@ -2,6 +2,7 @@ package main
 
 import (
 	"fmt"
+	"go/types"
 	"strings"
 
 	"golang.org/x/tools/go/ssa"
@@ -49,6 +50,25 @@ func ruleC05(r *Report) {
 			}
 		}
 		return true
+	}
+	// ... also when it hands the selected endpoint back (in a result struct, with an error) for the validator to store
+	a.Opaque = func(f *ssa.Function) bool {
+		rs := f.Signature.Results()
+		if !p.InLibrary(f) || rs.Len() != 2 || errIndex(f) != 1 {
+			return false
+		}
+		t0 := rs.At(0).Type()
+		if typeIs(t0, modPath, "IndexedEndpoint") {
+			return true
+		}
+		if st, ok := derefType(t0).Underlying().(*types.Struct); ok {
+			for i := 0; i < st.NumFields(); i++ {
+				if typeIs(st.Field(i).Type(), modPath, "IndexedEndpoint") {
+					return true
+				}
+			}
+		}
+		return false
 	}
 	B := a.B
 	t := NewTable(r, a, validate)
@@ -334,7 +354,16 @@ func checkACS(r *Report, sc *Scope) {
 						which = "IdP-initiated: POST binding"
 					}
 					if which != "" {
-						classified = append(classified, acsStore{fn, b, which, p.InstrPos(in), x, rg})
+						// where the choice is made: the store, or — when the chosen endpoint is handed back by a selection
+						// helper and stored by its caller — the return of the helper that selects this alternative
+						cfn, cblk, cat := fn, b, x
+						if len(o.Via) > 0 {
+							last := o.Via[len(o.Via)-1]
+							if last.C != nil && len(last.B.Instrs) > 0 {
+								cfn, cblk, cat = last.C.fn, last.B, RI{I: last.B.Instrs[len(last.B.Instrs)-1], C: last.C}
+							}
+						}
+						classified = append(classified, acsStore{cfn, cblk, which, p.InstrPos(in), cat, rg})
 						r.add(&Obligation{Rule: "C05.acs-guards", Construct: gc + " [" + which + "]", Pos: p.InstrPos(in), Verdict: "discharged", NonTrivial: true, Detail: which})
 					} else {
 						r.Bad("C05.acs-guards", gc+" ["+p.InstrPos(in)+"]", p.InstrPos(in), "the store is reachable under a condition that matches none of the documented selection rules: "+a.canon(cnd))
